@@ -8,6 +8,7 @@ import (
 	"go/constant"
 	"go/token"
 	"go/types"
+	"os"
 	"sort"
 	"strings"
 
@@ -269,7 +270,18 @@ func ruleOverride(c *Ctx) {
 		})
 		c.check(handedBack, name+"|handed-back", c.pos(fn.Pos()), name, "the overridden copy is what a successful call returns", name+": the instance is taken by value but a successful return does not hand the overridden copy back")
 	}
-	for _, ci := range callsIn(fn) {
+	calls := callsIn(fn)
+	// the whole function on every combination of given and omitted flags, by folding (however the four blocks are
+	// written: copied out, a loop over a table, a generic helper that is handed the getter)
+	if problem, n, ok := c.overrideByFolding(fn); ok {
+		for _, g := range sortedKeys(want) {
+			c.site(1)
+			c.check(problem == "", name+"|"+want[g], c.pos(fn.Pos()), name, fmt.Sprintf("%d combinations of given, omitted and refused flags folded on an instance with and without settings of its own: a given flag replaces the setting with what %s answers, an omitted one leaves it, a refused one is returned", n, g), name+": "+problem)
+			seen[g] = true
+		}
+		calls = nil
+	}
+	for _, ci := range calls {
 		getter := calleeName(ci.Common())
 		field, ok := want[getter]
 		if !ok {
@@ -697,4 +709,199 @@ func (c *Ctx) checkNoHiddenState() {
 			c.bad(key, c.pos(g.Pos()), writer, fmt.Sprintf("%s.%s is written by %s after initialisation: the package keeps state between calls, so what a chord, interval or key gives depends on what was computed before it (a memo table answers for the wrong input as soon as its key leaves something out)", pk, n, writer))
 		}
 	}
+}
+
+// overrideByFolding folds cmd.overrideInstanceFromFlags (instance handed over by pointer) with the flag set standing in:
+// each of --bpm, --velocity, --meter and --key given or omitted (16 combinations), on an instance without settings and
+// on one that has all four, plus each flag alone with a value its getter refuses. The getters are folded on their own with
+// the same flag values and say what is expected: a value replaces the setting, the `not given` sentinel leaves it as it
+// was, any other error is what the function returns. ok=false when something does not fold.
+func (c *Ctx) overrideByFolding(fn *ssa.Function) (string, int, bool) {
+	if len(fn.Params) != 2 {
+		return "", 0, false
+	}
+	if _, isPtr := fn.Params[1].Type().Underlying().(*types.Pointer); !isPtr {
+		return "", 0, false
+	}
+	debug := os.Getenv("CRDCHECK_DEBUG") != ""
+	var sentinelID int
+	if sp := c.ssapkg("errorx"); sp != nil {
+		if eg := sp.Var("ErrOK"); eg != nil {
+			sentinelID = c.globalTable(eg).errID
+		}
+	}
+	if sentinelID == 0 {
+		return "", 0, false
+	}
+	type flagSpec struct{ flag, getter, field, good, bad string }
+	specs := []flagSpec{{"bpm", "getBPM", "BPM", "100", ""}, {"velocity", "getVelocity", "Velocity", "mf", "zz"}, {"meter", "getMeter", "Meter", "3/4", "x"}, {"key", "getKey", "Key", "Am", "H"}}
+	strT, uintT := types.Typ[types.String], types.Typ[types.Uint]
+	libFor := func(vals map[string]string) func(*ssa.Function, []fval) (fval, bool) {
+		return func(f *ssa.Function, as []fval) (fval, bool) {
+			switch fname(f) {
+			case "github.com/spf13/cobra.Command.Flags", "github.com/spf13/cobra.Command.PersistentFlags":
+				return fval{nonNil: true}, true
+			case "github.com/spf13/pflag.FlagSet.GetString", "github.com/spf13/pflag.FlagSet.GetUint":
+				if len(as) != 2 || as[1].k == nil || as[1].k.Kind() != constant.String {
+					return top, false
+				}
+				v := vals[constant.StringVal(as[1].k)]
+				if strings.HasSuffix(fname(f), "GetUint") {
+					n := int64(0)
+					fmt.Sscanf(v, "%d", &n)
+					return fval{tuple: []fval{{k: constant.MakeInt64(n), t: uintT}, {isNil: true}}}, true
+				}
+				return fval{tuple: []fval{{k: constant.MakeString(v), t: strT}, {isNil: true}}}, true
+			}
+			return top, false
+		}
+	}
+	// what each getter answers for a value: "" (refused), "sentinel", or the description of the value
+	answer := func(sp flagSpec, v string) (string, bool) {
+		gf := c.fn("cmd", sp.getter)
+		if gf == nil {
+			return "", false
+		}
+		fd := c.newFolder()
+		fd.maxSteps, fd.maxDepth = 40000, 10
+		fd.lib = libFor(map[string]string{sp.flag: v})
+		r, err := fd.foldCall(gf, []fval{{nonNil: true}})
+		if err != nil || len(r.tuple) != 2 || !(r.tuple[1].isNil || r.tuple[1].nonNil) {
+			if debug {
+				fmt.Fprintf(os.Stderr, "overrideByFolding: %s(%q) does not fold: %v %s\n", sp.getter, v, err, r.String())
+			}
+			return "", false
+		}
+		switch {
+		case r.tuple[1].isNil:
+			if !r.tuple[0].known() {
+				return "", false
+			}
+			return "value " + fd.describeDeep(r.tuple[0], 0), true
+		case r.tuple[1].errID == sentinelID:
+			return "sentinel", true
+		}
+		return "refused", true
+	}
+	n := 0
+	run := func(vals map[string]string, withSettings bool) (string, bool) {
+		fd := c.newFolder()
+		fd.maxSteps, fd.maxDepth = 100000, 12
+		fd.lib = libFor(vals)
+		heap := map[*ssa.Alloc]fval{}
+		before := map[string]string{}
+		fields := map[string]fval{"Values": {isNil: true}, "Chord": {isNil: true}, "Meta": {isNil: true}}
+		for _, sp := range specs {
+			fields[sp.field] = fval{isNil: true}
+			before[sp.field] = "nil"
+			if withSettings {
+				a, ok := answer(sp, sp.good)
+				if !ok || !strings.HasPrefix(a, "value ") {
+					return "", false
+				}
+				// some other value of the right type: the getter's answer for the good value, kept in a cell of its own
+				gf := c.fn("cmd", sp.getter)
+				g := c.newFolder()
+				g.lib = libFor(map[string]string{sp.flag: sp.good})
+				r, err := g.foldCall(gf, []fval{{nonNil: true}})
+				if err != nil || len(r.tuple) != 2 {
+					return "", false
+				}
+				cell := new(ssa.Alloc)
+				heap[cell] = r.tuple[0]
+				fields[sp.field] = fval{addr: &faddr{base: cell}}
+				before[sp.field] = "own " + a
+			}
+		}
+		icell := new(ssa.Alloc)
+		heap[icell] = fval{fields: fields}
+		fd.heap = heap
+		r, err := fd.foldCallEnv(fn, []fval{{nonNil: true}, {addr: &faddr{base: icell}}}, nil, heap)
+		if err != nil || !(r.isNil || r.nonNil) || len(fd.incomplete) > 0 {
+			if debug {
+				fmt.Fprintf(os.Stderr, "overrideByFolding: %v (settings=%v) does not fold: %v %s incomplete=%v\n", vals, withSettings, err, r.String(), fd.incomplete)
+			}
+			return "", false
+		}
+		n++
+		what := fmt.Sprintf("with the flags %v on an instance %s settings of its own", vals, map[bool]string{true: "with", false: "without"}[withSettings])
+		refused := ""
+		for _, sp := range specs {
+			a, ok := answer(sp, vals[sp.flag])
+			if !ok {
+				return "", false
+			}
+			if a == "refused" {
+				refused = sp.flag
+			}
+		}
+		if refused != "" {
+			if !r.nonNil {
+				return fmt.Sprintf("%s: --%s is refused by its getter but no error is returned", what, refused), true
+			}
+			return "", true
+		}
+		if !r.isNil {
+			return what + ": an error is returned although every flag is given properly or omitted", true
+		}
+		after := heap[icell]
+		for _, sp := range specs {
+			a, _ := answer(sp, vals[sp.flag])
+			got := after.fields[sp.field]
+			gd := "nil"
+			if !got.isNil {
+				if got.addr == nil {
+					return "", false
+				}
+				gd = "value " + fd.describeDeep(fd.deref(got), 0)
+				if withSettings {
+					if orig := fields[sp.field]; orig.addr != nil && got.addr.base == orig.addr.base {
+						gd = "own " + gd
+					}
+				}
+			}
+			wantD := before[sp.field]
+			if a != "sentinel" {
+				wantD = a
+			}
+			if withSettings && a != "sentinel" && strings.HasPrefix(gd, "own ") {
+				// the given value equals the instance's own here (same probe): tell them apart by the cell
+				return fmt.Sprintf("%s: --%s is given but instance.%s still points at the instance's own setting", what, sp.flag, sp.field), true
+			}
+			if gd != wantD {
+				return fmt.Sprintf("%s: instance.%s is %s afterwards, want %s (a given flag replaces the setting, an omitted one leaves it)", what, sp.field, gd, wantD), true
+			}
+		}
+		return "", true
+	}
+	for mask := 0; mask < 16; mask++ {
+		vals := map[string]string{}
+		for i, sp := range specs {
+			if mask&(1<<i) != 0 {
+				vals[sp.flag] = sp.good
+			}
+		}
+		for _, ws := range []bool{false, true} {
+			p, ok := run(vals, ws)
+			if !ok {
+				return "", 0, false
+			}
+			if p != "" {
+				return p, n, true
+			}
+		}
+	}
+	for _, sp := range specs {
+		if sp.bad == "" {
+			continue
+		}
+		p, ok := run(map[string]string{sp.flag: sp.bad}, true)
+		if !ok {
+			continue // whether an error built at run time is the sentinel does not always fold: nothing is claimed for this case (ERRFLOW / ERRDROP see to dropped errors)
+		}
+		if p != "" {
+			return p, n, true
+		}
+	}
+	return "", n, true
 }
